@@ -95,8 +95,29 @@ def read_back(ctx, path, w):
     return r
 
 
+def foreign_file_prelude(path):
+    """Read a valid file whose time division is not the library writer's 72 (as a file from another program would be)."""
+    from mingus.midi.midi_file_out import MidiFile
+    from mingus.containers import Note, Bar
+    t = MidiTrack(100)
+    b = Bar("G", (3, 4))
+    for name, v in (("G", 4), ("B", 8), ("D", 8), ("G", 2)):
+        b.place_notes(name, v)
+    t.play_Bar(b)
+    m = MidiFile([t])
+    m.time_division = b"\x00\x90"          # 144 ticks per quarter note
+    m.write_file(path)
+    try:
+        MI.MIDI_to_Composition(path)
+    except Exception:
+        pass
+
+
 def run(shard, ctx):
     kind = shard["kind"]
+    if kind in ("rt", "tempo"):
+        with Scratch() as p0:
+            foreign_file_prelude(p0)
     if kind == "rt":
         rng = ctx.rng("rt")
         values = MM.midi_vocabulary(whole_ticks_only=True)
